@@ -166,7 +166,7 @@ Qed.
 Lemma run_row_perm n ks ks' r :
   Permutation ks ks' -> run_row r (mk_shape n ks) = run_row r (mk_shape n ks').
 Proof.
-  intro P. destruct r as [[al|] es| |k pr ab]; cbn [run_row npos kws].
+  intro P. destruct r as [[al|] es| |k fb pr ab]; cbn [run_row npos kws].
   - rewrite (forallb_perm _ _ _ P), (run_entries_perm n ks ks' es P). reflexivity.
   - apply run_entries_perm; auto.
   - destruct ks as [|a r].
@@ -174,6 +174,7 @@ Proof.
     + pose proof (perm_cons_not_nil _ _ _ P) as NE. destruct ks' as [|a' r']; [congruence|].
       destruct n; reflexivity.
   - rewrite (tmem_perm k _ _ P), (run_entries_perm n ks ks' pr P), (run_entries_perm n ks ks' ab P).
+    rewrite (existsb_ext' (fun f => tmem f ks) (fun f => tmem f ks')) by (intro; apply tmem_perm; auto).
     reflexivity.
 Qed.
 
@@ -352,7 +353,7 @@ Qed.
 
 Lemma method_total_sound m sh : method_total m = true -> exists b, redu_bind m sh = Bound b.
 Proof.
-  unfold method_total, redu_bind. destruct (tlookup m table) as [[[al|] es| |k pr ab]|]; try discriminate.
+  unfold method_total, redu_bind. destruct (tlookup m table) as [[[al|] es| |k fb pr ab]|]; try discriminate.
   intro H. cbn [run_row]. apply run_entries_total. exact H.
 Qed.
 
@@ -400,13 +401,69 @@ Proof.
   destruct Hin as [E|[E|[E|[E|[]]]]]; subst sh; eexists; split; vm_compute; reflexivity.
 Qed.
 
-(* LCD(rs=.., i2c_addr=..) *)
+(* ------------------------------------------------------------------ no guard is left *)
+Lemma all_methods_agree : agreeing_methods = translated_methods.
+Proof. vm_compute. reflexivity. Qed.
+
+Lemma guard_ok_always m sh : guard_ok (guard_of m) sh = true.
+Proof. unfold guard_of, guards. cbn [tlookup]. reflexivity. Qed.
+
+(* the property for every handler and every call shape, without any guard *)
+Theorem bind_agrees : forall m sh b,
+  In m translated_methods -> py_bind (sig_of m) sh = Some b -> agrees m sh b.
+Proof. intros m sh b Hin H. exact (bind_agrees_guarded m sh b Hin (guard_ok_always m sh) H). Qed.
+
+(* LCD(rs=.., i2c_addr=..): the former witness of F-C08-lcd-i2c-parallel-pins *)
 Definition lcd_init_witness : call_shape := mk_shape 0 [T "rs"; T "i2c_addr"].
 
-Lemma lcd_init_refuted :
-  exists sh b b', py_bind (sig_of (T "LCD.__init__")) sh = Some b /\ redu_bind (T "LCD.__init__") sh = Bound b'
-                  /\ b' <> restrict (device_params (T "LCD.__init__")) b.
-Proof. exists lcd_init_witness. apply refute_by_compute. vm_compute. reflexivity. Qed.
+(* the I2C branch rejects every parallel pin (and every positional argument), whatever else is passed *)
+Lemma lcd_i2c_rejects_parallel : forall sh k,
+  In (T "i2c_addr") (kws sh) -> In k lcd_parallel_pins -> In k (kws sh) ->
+  redu_bind (T "LCD.__init__") sh = Rejected.
+Proof.
+  intros sh k Hi Hk Hin.
+  assert (E : redu_bind (T "LCD.__init__") sh = run_row (RowSwitch (T "i2c_addr") lcd_parallel_pins lcd_i2c lcd_parallel) sh)
+    by reflexivity.
+  rewrite E. cbn [run_row].
+  replace (tmem (T "i2c_addr") (kws sh)) with true by (symmetry; apply tmem_In; exact Hi).
+  replace (existsb (fun f => tmem f (kws sh)) lcd_parallel_pins) with true.
+  - rewrite orb_true_r. reflexivity.
+  - symmetry. apply existsb_exists. exists k. split; [exact Hk|apply tmem_In; exact Hin].
+Qed.
+
+Lemma lcd_i2c_rejects_positional : forall sh,
+  In (T "i2c_addr") (kws sh) -> 0 < npos sh -> redu_bind (T "LCD.__init__") sh = Rejected.
+Proof.
+  intros sh Hi Hp.
+  assert (E : redu_bind (T "LCD.__init__") sh = run_row (RowSwitch (T "i2c_addr") lcd_parallel_pins lcd_i2c lcd_parallel) sh)
+    by reflexivity.
+  rewrite E. cbn [run_row].
+  replace (tmem (T "i2c_addr") (kws sh)) with true by (symmetry; apply tmem_In; exact Hi).
+  replace (0 <? npos sh) with true by (symmetry; apply Nat.ltb_lt; exact Hp). reflexivity.
+Qed.
+
+(* the negation of the former refutation, literally: no call of LCD(...) Python accepts is bound differently *)
+Lemma lcd_init_no_disagreement : forall sh b b',
+  py_bind (sig_of (T "LCD.__init__")) sh = Some b ->
+  redu_bind (T "LCD.__init__") sh = Bound b' ->
+  b' = restrict (device_params (T "LCD.__init__")) b.
+Proof.
+  intros sh b b' H R.
+  assert (In (T "LCD.__init__") translated_methods) as Hin by (apply tmem_In; vm_compute; reflexivity).
+  destruct (bind_agrees _ _ _ Hin H) as [X|X]; congruence.
+Qed.
+
+Lemma lcd_init_witness_rejected :
+  py_bind (sig_of (T "LCD.__init__")) lcd_init_witness <> None /\
+  redu_bind (T "LCD.__init__") lcd_init_witness = Rejected /\
+  redu_bind (T "LCD.__init__") (mk_shape 0 [T "i2c_addr"; T "rw"]) = Rejected /\
+  redu_bind (T "LCD.__init__") (mk_shape 1 [T "i2c_addr"]) = Rejected /\
+  (exists b, redu_bind (T "LCD.__init__") (mk_shape 0 [T "backlight_pin"; T "i2c_addr"; T "rows"]) = Bound b) /\
+  (exists b, redu_bind (T "LCD.__init__") (mk_shape 0 [T "rs"; T "en"; T "d4"; T "d5"; T "d6"; T "d7"; T "rw"]) = Bound b).
+Proof.
+  split; [vm_compute; discriminate|]. split; [vm_compute; reflexivity|]. split; [vm_compute; reflexivity|].
+  split; [vm_compute; reflexivity|]. split; eexists; vm_compute; reflexivity.
+Qed.
 
 (* ------------------------------------------------------------------ the table covers the host surface *)
 Lemma surface_classified_b :
